@@ -1,5 +1,6 @@
 ---- MODULE MC_Context ----
 EXTENDS Context
 SeedsDef == {0, 1, 2, 3, 7, 11, 42, 12345}
-WorldsDef == {"rich", "chain", "errors"}
+WorldsDef == {"rich", "chain", "errors", "cycle", "typo"}
+PriorOptsDef == {"same", "py310", "win311loose"}
 ====
